@@ -41,6 +41,6 @@ Proof.
     rewrite flat3_nth by (rewrite ?map_length; lia).
     assert (E : nth (ravel shape idx) (map f vs) (d, d, d) = f (nth (ravel shape idx) vs (d, d, d))).
     { rewrite (nth_indep (map f vs) (d, d, d) (f (d, d, d))) by (rewrite map_length; lia). apply map_nth. }
-    rewrite E. reflexivity.
+    rewrite E. replace (k * 1 + 0) with k by lia. reflexivity.
 Qed.
 End Shape.
